@@ -49,6 +49,7 @@ def run_impl(ops, values=None):
 def nontrivial(ops):
     """a scenario counts when at least one object is decomposed with d >= 2 and a constraint list is generated"""
     ds = [o[1] for o in ops if o[0] == "WPart"]
+    ops = B.flatten(ops)
     return any(o[0] == "WGet" and ds[o[1]] >= 2 and o[3] < ds[o[1]] for o in ops) and \
         any(o[0] in ("WCons", "WSolve") for o in ops)
 
@@ -77,7 +78,8 @@ def correspondence(tier, seed, corpus=()):
         for k, v in r.hist.items():
             hist[k] = hist.get(k, 0) + v
         stats["first_decompositions"] += len(r.base)
-        for op, out in zip(ops, r.outputs):
+        stats["temporaries"] = stats.get("temporaries", 0) + getattr(r, "ntemp", 0)
+        for op, out in zip(r.flat_ops, r.outputs):
             if op[0] == "WGet":
                 stats["gets"] += 1
                 if out == "AssertionError":
@@ -107,7 +109,8 @@ def _scenario_stream(cases, distinct, mism, bad, problems, runs, hist, sizes, st
     return dict(name="block-scenarios", evaluations=len(cases), distinct_nontrivial=len(distinct),
                 rule="seeded scenarios over <= 3 partitions with 1 <= d <= 4: get_block on leaves, operator-built "
                      "combinations, blocks, the same object again, twin objects with equal decomposition, invalid block "
-                     "numbers; partitions created through the PEP / another PEP object / the class constructor, some with one "
+                     "numbers; TEMPORARY combinations built inline in a helper and dropped (gc.collect() before every solve / "
+                     "add_partition_constraints; the model still counts them as decomposed); partitions created through the PEP / another PEP object / the class constructor, some with one "
                      "block, some never used, declared before or after use; add_partition_constraints by hand once or twice "
                      "and pep.solve() through the recording wrapper (everything in _list_of_constraints_sent_to_wrapper is "
                      "compared); non-trivial = some object decomposed with d >= 2 and a constraint list generated or sent; "
@@ -230,14 +233,23 @@ def solve_stream():
 
 MULTI_INSTANCES = [(how, extra) for how in ("pep", "ctor", "other")
                    for extra in (None, "unused-2-block-first", "one-block-used-after", "unused-3-block-ctor-after",
-                                 "one-block-unused-first")]
+                                 "one-block-unused-first")] + \
+                  [(how, "temporary") for how in ("pep", "ctor", "other")] + [("pep", "temporary+one-block-used-after")]
+
+
+def _blocks_of_temporary(part, x, y, d):
+    """the decomposed combination x - 2y exists only here (as in `partition.get_block(g + beta * (x - x_prev), i)`);
+    only its blocks are returned"""
+    direction = x - 2 * y
+    return [part.get_block(direction, k) for k in range(d)]
 
 
 def solved_instance(how, extra):
     """one solved PEP with several partitions.  Two leaf points x, y and z = x - 2y; a 3-block partition (created
     `how`: through the PEP, through another PEP object, or with the class constructor) decomposes x and z (y never);
     every block has norm <= 1; maximise <x0,x1> + <x2,z0> + <z1,x0> + <z2,z1> (products of DIFFERENT blocks only).
-    `extra` adds a partition that induces no relation (one block, or never used), before or after.  Whatever the
+    `extra` adds a partition that induces no relation (one block, or never used), before or after, or makes z a
+    TEMPORARY (built inside a helper, only its blocks survive, gc.collect() before the solve).  Whatever the
     other partitions look like the 12 relations must be formulated and sent, the value is 0 and every cross-block
     Gram product of the returned solution is 0.  Returns a problem dict or None."""
     from PEPit import PEP, Point, BlockPartition
@@ -254,10 +266,13 @@ def solved_instance(how, extra):
         make(1, "ctor")
     part = make(d, how)
     x, y = Point(), Point()
-    z = x - 2 * y
     xb = [part.get_block(x, k) for k in range(d)]
-    zb = [part.get_block(z, k) for k in range(d)]
-    if extra == "one-block-used-after":
+    if extra and extra.startswith("temporary"):
+        zb = _blocks_of_temporary(part, x, y, d)
+    else:
+        z = x - 2 * y
+        zb = [part.get_block(z, k) for k in range(d)]
+    if extra in ("one-block-used-after", "temporary+one-block-used-after"):
         ident = make(1, "pep")
         ident.get_block(x, 0)
     if extra == "unused-3-block-ctor-after":
@@ -266,6 +281,8 @@ def solved_instance(how, extra):
         pb.add_constraint(b ** 2 <= 1)
     pb.set_performance_metric(xb[0] * xb[1] + xb[2] * zb[0] + zb[1] * xb[0] + zb[2] * zb[1])
     inst = dict(instance=[how, extra])
+    import gc
+    gc.collect()
     try:
         tau = pb.solve(verbose=0)
     except Exception as e:
